@@ -12,9 +12,13 @@ Oracle (implementation only, from the property statement):
               reported; if it succeeds the result is the one obtained without the extras;
   forbid off: the outcome equals the outcome without the extras  (known finding F9: TypedDict results carry the
               extra keys along; recognised narrowly, everything else is a violation);
-  tagged unions (`configure_tagged_union` on a forbidding converter): the tag is not an extra, anything else is.
+  tagged unions (`configure_tagged_union` on a forbidding converter): the tag is not an extra, anything else is;
+              the real tagged-union hook == the composed model `tagHookSt` (op TAGHOOKST: tagged-union model of C13 over
+              the generated member hooks), about which C10_tag_not_extra / C10_tag_extras_reported / C10_tag_default_member
+              are proved.
 Correspondence: outcome of the real hooks (ok value | set of (path, class, extra keys) reports) == model
-`hst` (op HOOKST), for the forbidding world and for the same world with forbidding switched off.
+`hst` (op HOOKST), for the forbidding world and for the same world with forbidding switched off; the predicate
+`hits` of the nested theorem (op HOOKHITS) == "some forbidding position got an injected extra key".
 """
 from __future__ import annotations
 
@@ -218,14 +222,42 @@ def judge(g, S_on, S_off, ty, p_ext, injected, base, on_res, off_res):
 
 # ------------------------------------------------------------------------------------------------ main loop
 
+def in_f24_region(g):
+    """recorded finding F24 (TypedDict rename onto a declared name, possibly its own): there the two templates differ
+    by design of the copy-then-patch hooks (`del res[kn]` vs `res.pop`); the mode comparison below stays out of it"""
+    for ci, c in enumerate(g["classes"]):
+        if c["kind"] != "td":
+            continue
+        hc = H.eff_hc(g, ci)
+        names = {f["name"] for f in c["fields"]}
+        if any(H.ov_of(hc, f)["rename"] in names and not H.ov_of(hc, f)["omit"] for f in c["fields"]):
+            return True
+    return False
+
+
+def other_mode(g):
+    """the same world generated with the other validation template everywhere"""
+    g2 = dict(g, detailed=not g["detailed"])
+    g2["classes"] = [dict(c, hc=dict(c["hc"], detailed=not c["hc"]["detailed"])) for c in g["classes"]]
+    if g.get("conv") is not None:
+        g2["conv"] = dict(g["conv"], detailed=not g["conv"]["detailed"])
+    return g2
+
+
 def one_world(chk, drv, HG, g, stream, corr_fail, n_inst, n_var, only_last=False):
     rng = chk.rng
     g_off = H.with_forbid(g, False)
     try:
         S_on = H.HookSession(drv, g)
         S_off = H.HookSession(drv, g_off, R=S_on.R)
+        S_tw = H.HookSession(drv, other_mode(g), R=S_on.R)
     except Exception:  # noqa: BLE001  python itself rejected the classes
         chk.note("world-rejected-by-python")
+        return
+    f24 = in_f24_region(g)
+    if S_tw.gen_error is not None and S_on.gen_error is None and stream != UNJUDGED:
+        chk.violation("C10 oracle: the hooks of a customised class can be generated with one validation template but not with "
+                      "the other: " + repr(S_tw.gen_error)[:200], {"check": "modes", "stream": stream, "gworld": g})
         return
     if S_on.gen_error is not None or S_off.gen_error is not None:
         chk.note("hook-generation-failed(C09 matter)")
@@ -276,11 +308,29 @@ def one_world(chk, drv, HG, g, stream, corr_fail, n_inst, n_var, only_last=False
                 # ---- oracle
                 # (customisations that are not consistent only feed the correspondence: the statement does not cover them)
                 bad = judge(g, S_on, S_off, ty, p_ext, injected, base, on_res, off_res) if stream != UNJUDGED else []
+                if stream != UNJUDGED and not f24:
+                    # the other validation template on the same customised classes and payload: accepted keys are a matter of
+                    # the customisation, not of the template (property C04's statement, on customised hooks)
+                    tw_res = S_tw.impl_st(ty, S_tw.R.val(p_ext))
+                    chk.note("modes-compared")
+                    if (on_res[0] == "err") != (tw_res[0] == "err") or (on_res[0] == "ok" and tw_res[0] == "ok" and not (on_res[2] == tw_res[2])):
+                        bad.append(("the detailed and the fast template disagree on a customised class: %s-mode %s, other mode %s"
+                                    % ("detailed" if g["detailed"] else "fast",
+                                       repr(on_res[1])[:120] if on_res[0] == "err" else "ok", repr(tw_res[1])[:120] if tw_res[0] == "err" else "ok"),
+                                    {"check": "modes"}))
                 for what, extra in bad:
                     chk.violation("C10 oracle: " + what + f" [{stream} {c['kind']} {terms.canon_sx(p_ext)[:300]}]",
                                   dict(case, **extra))
                 if any(e.get("deviation") != "td-extras-carried" for _, e in bad):
                     continue
+                # ---- the vocabulary of the nested theorem: model `hits` == "a forbidding position got an injected extra"
+                if stream != UNJUDGED:
+                    rh = S_on.model_hits(ty, p_ext, g)
+                    if rh in ("0", "1"):
+                        chk.note("nested-hits-compared")
+                        if (rh == "1") != (n_forb > 0):
+                            corr_fail.append((dict(case, forbid_world="hits"), "forbidding positions hit: %d" % n_forb, "hits=" + rh))
+                            continue
                 # ---- correspondence (both worlds)
                 for S, gg, res, tag in ((S_on, g, on_res, "on"), (S_off, g_off, off_res, "off")):
                     a = H.impl_reply(S, res)
@@ -296,8 +346,38 @@ def one_world(chk, drv, HG, g, stream, corr_fail, n_inst, n_var, only_last=False
                         corr_fail.append((dict(case, forbid_world=tag), a, b))
 
 
-def tagged_unions(chk, HG, n):
-    """the tag key of a tagged union is not an extra (Python only)"""
+def tag_corr(chk, drv, S, g, U, tu_sx, payload, corr_fail, case, variant):
+    """correspondence for one tagged-union structure call: real hook == model `tagHookSt` (op TAGHOOKST) -- the
+    composition of the tagged-union model (C13) with the generated member hooks, about which C10_tag_* are proved"""
+    try:
+        v = S.conv.structure(payload, U)
+        ri = ("ok", S.R.abs(v), v)
+    except H.Unrepresentable:
+        chk.unmodelled += 1
+        return
+    except Exception as e:  # noqa: BLE001
+        ri = ("err", e)
+    try:
+        p_abs = S.R.abs(payload)
+    except H.Unrepresentable:
+        chk.unmodelled += 1
+        return
+    a = H.impl_reply(S, ri)
+    b = H.model_reply(drv.ask("TAGHOOKST %s %d %s %s" % (H.gworld_sx(g), H.FUEL, tu_sx, terms.obj_sx(H.norm_obj(p_abs)))))
+    if b[0] == "unmodelled":
+        chk.unmodelled += 1
+        return
+    chk.note("tagged-union-compared:" + variant)
+    if a != b:
+        if a[0] == "ok" and b[0] == "ok" and (H.set_repr_hazard(a[1]) or H.set_repr_hazard(b[1])):
+            chk.unmodelled += 1
+            return
+        corr_fail.append((dict(case, stream="tagged-union:" + variant, payload_ext=p_abs, forbid_world="tag"), a, b))
+
+
+def tagged_unions(chk, HG, n, drv, corr_fail):
+    """the tag key of a tagged union is not an extra: oracle on the implementation + correspondence with the
+    composed model"""
     rng = chk.rng
     done = 0
     for _ in range(n * 3):
@@ -311,7 +391,10 @@ def tagged_unions(chk, HG, n):
         if len(members) < 2:
             continue
         members = members[:2] if rng.random() < 0.7 else members
-        conv = Converter(detailed_validation=g["detailed"], forbid_extra_keys=True, omit_if_default=g["conv"]["oid"])
+        S = H.HookSession(drv, g, R=R)      # Converter(detailed_validation, omit_if_default, forbid_extra_keys=True)
+        if S.gen_error is not None:
+            continue
+        conv = S.conv
         U = Union[tuple(R.classes[i] for i in members)]
         tag = rng.choice(["_type", "kind", "it's"])
         dflt = rng.choice(members) if rng.random() < 0.5 else None
@@ -331,6 +414,10 @@ def tagged_unions(chk, HG, n):
             done += 1
             chk.note("tagged-union:" + ("detailed" if g["detailed"] else "fast"))
             case = {"check": "tag", "gworld": g, "members": members, "tag": tag}
+            tu_sx = "(tu (members %s) (tags %s) %s %s 1)" % (
+                " ".join(str(i) for i in members),
+                " ".join("(%d %s)" % (i, terms.obj_sx(("s", R.classes[i].__name__))) for i in members),
+                terms.esc(tag), "-" if dflt is None else str(dflt))
             try:
                 p = conv.unstructure(x, unstructure_as=U)
                 y = conv.structure(p, U)
@@ -341,8 +428,12 @@ def tagged_unions(chk, HG, n):
             chk.count("tag" + repr(p), sample={"tagged_union_payload": repr(p)[:200]})
             if not (y == x):
                 chk.violation("C10 oracle: tagged union round trip changed the value", case)
+            tag_corr(chk, drv, S, g, U, tu_sx, p, corr_fail, case, "own-payload")
             p2 = dict(p)
             p2["zzz"] = 5
+            tag_corr(chk, drv, S, g, U, tu_sx, p2, corr_fail, case, "extra-key")
+            p3 = {rng.choice(["zzz", "it's", tag + "_"]): 1, **{k: p[k] for k in reversed(list(p))}}   # tag first / keys reordered
+            tag_corr(chk, drv, S, g, U, tu_sx, p3, corr_fail, case, "reordered+extra")
             try:
                 conv.structure(p2, U)
                 chk.violation("C10 oracle: tagged union on a forbidding converter accepted an extra key", case)
@@ -365,6 +456,8 @@ def tagged_unions(chk, HG, n):
                     pd = conv.unstructure(xd, unstructure_as=U)
                     for variant, q in (("unknown-tag", {**pd, tag: "no-such-member"}), ("missing-tag", {k: v for k, v in pd.items() if k != tag})):
                         chk.note("tagged-union-default:" + variant)
+                        tag_corr(chk, drv, S, g, U, tu_sx, q, corr_fail, dict(case, default=dflt), "default:" + variant)
+                        tag_corr(chk, drv, S, g, U, tu_sx, {**q, "zzz": 5}, corr_fail, dict(case, default=dflt), "default:" + variant + "+extra")
                         yd = conv.structure(q, U)
                         if not (yd == xd and type(yd) is type(xd)):
                             chk.violation(f"C10 oracle: tagged union with default, {variant}: got {yd!r}, expected {xd!r}", dict(case, default=dflt))
@@ -424,11 +517,11 @@ def run(chk: framework.Check):
         one_world(chk, drv, HG, g, "converter", corr_fail, 2, 3)
     for _ in range(n_any):
         one_world(chk, drv, HG, HG.gworld(want="any", forbid_p=0.6), UNJUDGED, corr_fail, 2, 2)
-    tagged_unions(chk, HG, 40 if quick else 400)
+    tagged_unions(chk, HG, 40 if quick else 400, drv, corr_fail)
     for case, a, b in corr_fail[:5]:
         chk.violation(
-            "correspondence corr:C10:HOOKST broken (theorems C10_* no longer tied to the code): impl=%s model=%s [%s %s]"
-            % (str(a)[:300], str(b)[:300], case["stream"], terms.canon_sx(case["payload_ext"])[:300]),
+            "correspondence corr:C10:%s broken (theorems C10_* no longer tied to the code): impl=%s model=%s [%s %s]"
+            % ({"tag": "TAGHOOKST", "hits": "HOOKHITS"}.get(case.get("forbid_world"), "HOOKST"), str(a)[:300], str(b)[:300], case["stream"], terms.canon_sx(case["payload_ext"])[:300]),
             case, found_input=False)
     chk.extra["rule"] = ("class tables (attrs/dataclass/TypedDict/NamedTuple) x consistent customisations x valid payloads x "
                          "injected extra-key sets; non-trivial = at least one extra key injected; distinct by canonical text")
